@@ -1203,6 +1203,8 @@ def register_facing(reg):
         eng.assume(z3.Or(p[0] != v[0], p[1] != v[1]))  # the line of sight must have a direction in the XY plane
         env.vars.update(heading=H, fromPt=fromPt, _ctx=ctx, _V=V_)
 
+    refuted_once = set()
+
     def post_apparent(I, env, outcome):
         eng = I.eng
         if outcome[0] != "return":
@@ -1230,7 +1232,10 @@ def register_facing(reg):
         # "equal modulo whole turns" is proved with an explicit integer witness (ghost): the turns lost by the two rotations
         E = (yawP + yaw) - ((ATAN2(dy, dx) - HALF_PI) + H)
         witnesses = [G.W_YAW_ROTATED(-yawP, e[0], e[1], e[2]) + G.W_ROTATED(H, dx, dy)]
-        chk("global_heading_is_the_azimuth_of_the_line_of_sight_plus_H", z3.Or(*[E == TAU * z3.ToReal(k) for k in witnesses]))
+        # (an obligation already refuted on the other path -- `from` given / ego -- is not refuted a second time: each costs the full solver budget)
+        if "heading" not in refuted_once:
+            if not chk("global_heading_is_the_azimuth_of_the_line_of_sight_plus_H", z3.Or(*[E == TAU * z3.ToReal(k) for k in witnesses])):
+                refuted_once.add("heading")
 
     def replay_apparent(inputs, clause):
         H = float(inputs.get("heading", 0.0))
